@@ -107,6 +107,9 @@ func TestReplay(t *testing.T) {
 		}
 		rp, ok := replayers[v.Oracle]
 		if !ok {
+			if v.Oracle == "mock" || v.Oracle == "c10" {
+				continue // replayed by the mockreg / racecheck binaries
+			}
 			t.Fatalf("%s: no replayer for oracle %q", f, v.Oracle)
 		}
 		rec.Property = v.Property
